@@ -664,3 +664,313 @@ func ruleSliceConversionNotFolded(c *Ctx, rule string) {
 		c.Ob(rule, "fast.Comp.convert/sites", fd, false, fmt.Sprintf("only %d folding sites found: anchor missing", len(sites)))
 	}
 }
+
+// ---------------------------------------------------------------- V3: two-sided admission rules
+
+// dnf of a condition over literals (atoms or negated atoms); each term is a list of atom expressions.
+func condDNF(e ast.Expr) [][]ast.Expr {
+	switch x := unparen(e).(type) {
+	case *ast.BinaryExpr:
+		if x.Op == token.LOR {
+			return append(condDNF(x.X), condDNF(x.Y)...)
+		}
+		if x.Op == token.LAND {
+			var out [][]ast.Expr
+			for _, a := range condDNF(x.X) {
+				for _, b := range condDNF(x.Y) {
+					t := append(append([]ast.Expr{}, a...), b...)
+					out = append(out, t)
+				}
+			}
+			return out
+		}
+	}
+	return [][]ast.Expr{{e}}
+}
+
+// ruleTwoSidedAdmission: in the type checker's convertibleTo every clause that admits a conversion
+// constrains both the operand's type and the target type in each of its alternatives: an alternative
+// that looks at one side only would admit conversions from (or to) arbitrary types.
+func ruleTwoSidedAdmission(c *Ctx, rule string) {
+	pk := c.P.Pkg("go/types")
+	fd := c.P.Func("go/types.operand.convertibleTo")
+	if pk == nil || fd == nil {
+		c.Ob(rule, "go/types.operand.convertibleTo", nil, false, "anchor function not found")
+		return
+	}
+	info := pk.TypesInfo
+	side := map[types.Object]int{} // 1 = source, 2 = target, 3 = both
+	if fd.Recv != nil && len(fd.Recv.List) == 1 && len(fd.Recv.List[0].Names) == 1 {
+		side[info.Defs[fd.Recv.List[0].Names[0]]] = 1
+	}
+	// the target: the parameter of type Type
+	for _, f := range fd.Type.Params.List {
+		for _, nm := range f.Names {
+			if o := info.Defs[nm]; o != nil && isNamedType(o.Type(), "go/types", "Type") {
+				side[o] = 2
+			}
+		}
+	}
+	sideOf := func(e ast.Node) int {
+		s := 0
+		ast.Inspect(e, func(n ast.Node) bool {
+			if id, ok := n.(*ast.Ident); ok {
+				if o := info.Uses[id]; o != nil {
+					s |= side[o]
+				}
+			}
+			return true
+		})
+		return s
+	}
+	// locals (in source order): side of the defining expression
+	ast.Inspect(fd.Body, func(n ast.Node) bool {
+		if as, ok := n.(*ast.AssignStmt); ok && as.Tok == token.DEFINE {
+			s := 0
+			for _, r := range as.Rhs {
+				s |= sideOf(r)
+			}
+			for _, l := range as.Lhs {
+				if id := identOf(l); id != nil && id.Name != "_" {
+					if o := info.Defs[id]; o != nil {
+						if b, isB := o.Type().Underlying().(*types.Basic); isB && b.Kind() == types.Bool {
+							continue // `ok` flags
+						}
+						side[o] = s
+					}
+				}
+			}
+		}
+		return true
+	})
+	n := 0
+	var walk func(list []ast.Stmt, outer [][]ast.Node)
+	walk = func(list []ast.Stmt, outer [][]ast.Node) {
+		for _, st := range list {
+			ifs, ok := st.(*ast.IfStmt)
+			if !ok {
+				continue
+			}
+			// terms of this if: DNF of the condition, each conjoined with the init (type assertion) and the outer terms
+			var terms [][]ast.Node
+			for _, t := range condDNF(ifs.Cond) {
+				var tt []ast.Node
+				for _, a := range t {
+					tt = append(tt, a)
+				}
+				if ifs.Init != nil {
+					tt = append(tt, ifs.Init)
+				}
+				terms = append(terms, tt)
+			}
+			var full [][]ast.Node
+			if len(outer) == 0 {
+				full = terms
+			} else {
+				for _, o := range outer {
+					for _, t := range terms {
+						full = append(full, append(append([]ast.Node{}, o...), t...))
+					}
+				}
+			}
+			admits := false
+			for _, s2 := range ifs.Body.List {
+				if r, ok := s2.(*ast.ReturnStmt); ok && len(r.Results) == 1 && exprString(r.Results[0]) == "true" {
+					admits = true
+				}
+			}
+			if admits {
+				for _, t := range full {
+					s := 0
+					var strs []string
+					for _, a := range t {
+						s |= sideOf(a)
+						if e, ok := a.(ast.Expr); ok {
+							strs = append(strs, exprString(e))
+						} else {
+							strs = append(strs, "init")
+						}
+					}
+					n++
+					c.Ob(rule, "go/types.operand.convertibleTo/"+strings.Join(strs, " && "), ifs, s == 3, "each alternative of an admitting clause constrains both the operand's type and the target type")
+				}
+			}
+			walk(ifs.Body.List, full)
+		}
+	}
+	walk(fd.Body.List, nil)
+	if n < 8 {
+		c.Ob(rule, "go/types.operand.convertibleTo/clauses", fd, false, fmt.Sprintf("only %d admitting alternatives found: anchor missing", n))
+	}
+}
+
+// ruleNoNarrowing (K2): the 64-bit result of constant.Int64Val / Uint64Val is never converted to a narrower
+// integer type (int, int32, rune ...) unless the conversion is inside an if that bounds the value on both sides.
+func ruleNoNarrowing(c *Ctx, rule string) {
+	pk := c.P.Pkg("base/untyped")
+	info := pk.TypesInfo
+	n := 0
+	for _, fd := range c.P.FuncsOf("base/untyped") {
+		vals := map[types.Object]bool{}
+		ast.Inspect(fd.Body, func(nd ast.Node) bool {
+			if as, ok := nd.(*ast.AssignStmt); ok && len(as.Lhs) == 2 && len(as.Rhs) == 1 {
+				if call, ok := unparen(as.Rhs[0]).(*ast.CallExpr); ok {
+					if fn := calleeOf(info, call); fn != nil && fn.Pkg() != nil && fn.Pkg().Path() == "go/constant" && (fn.Name() == "Int64Val" || fn.Name() == "Uint64Val") {
+						if id := identOf(as.Lhs[0]); id != nil {
+							o := info.Defs[id]
+							if o == nil {
+								o = info.Uses[id]
+							}
+							if b, ok := o.Type().Underlying().(*types.Basic); ok && b.Info()&types.IsInteger != 0 {
+								vals[o] = true
+							}
+						}
+					}
+				}
+			}
+			return true
+		})
+		if len(vals) == 0 {
+			continue
+		}
+		n++
+		bad := 0
+		ast.Inspect(fd.Body, func(nd ast.Node) bool {
+			call, ok := nd.(*ast.CallExpr)
+			if !ok || len(call.Args) != 1 {
+				return true
+			}
+			tv, ok := info.Types[call.Fun]
+			if !ok || !tv.IsType() {
+				return true
+			}
+			id := identOf(call.Args[0])
+			if id == nil || !vals[info.Uses[id]] {
+				return true
+			}
+			b, ok := tv.Type.Underlying().(*types.Basic)
+			if !ok || b.Info()&types.IsInteger == 0 {
+				return true
+			}
+			switch b.Kind() {
+			case types.Int64, types.Uint64:
+				return true
+			}
+			// narrowing: must be range-guarded
+			o := info.Uses[id]
+			lower, upper := false, false
+			stack := enclosingStack(fd.Body, call)
+			for i, anc := range stack {
+				ifs, isIf := anc.(*ast.IfStmt)
+				if !isIf || i+1 >= len(stack) || stack[i+1] != ast.Node(ifs.Body) {
+					continue
+				}
+				for _, a := range andAtoms(ifs.Cond) {
+					if be, ok := unparen(a).(*ast.BinaryExpr); ok && identOf(be.X) != nil && info.Uses[identOf(be.X)] == o {
+						switch be.Op {
+						case token.GEQ, token.GTR:
+							lower = true
+						case token.LEQ, token.LSS:
+							upper = true
+						}
+					}
+				}
+			}
+			if b.Info()&types.IsUnsigned != 0 && info.TypeOf(id) != nil {
+				if sb, ok := info.TypeOf(id).Underlying().(*types.Basic); ok && sb.Info()&types.IsUnsigned != 0 {
+					lower = true
+				}
+			}
+			okN := lower && upper
+			if !okN {
+				bad++
+			}
+			c.Ob(rule, funcKey(pk, fd)+"/"+exprString(call), call, okN, "a 64-bit constant value is narrowed to "+b.Name()+" only inside a two-sided range check; otherwise high bits are silently dropped (string(rune(1<<32+65)) would be \"A\")")
+			return true
+		})
+		if bad == 0 {
+			c.ObTrivial(rule, funcKey(pk, fd), fd, true, "no unguarded narrowing of an Int64Val/Uint64Val result")
+		}
+	}
+	if n < 3 {
+		c.Ob(rule, "base/untyped", nil, false, "fewer than 3 functions use Int64Val/Uint64Val: anchor missing")
+	}
+}
+
+// ruleFreshBigValues (F1): a constant converted to *big.Int / *big.Rat / *big.Float is handed out as a fresh
+// copy at each execution: the run-time closure reads the captured compile-time value only as the argument of
+// Set on a local, and returns the address of that local.
+func ruleFreshBigValues(c *Ctx, rule string) {
+	pk := c.P.Pkg("fast")
+	info := pk.TypesInfo
+	fd := c.P.Func("fast.makeMathBigFun")
+	if fd == nil {
+		c.Ob(rule, "fast.makeMathBigFun", nil, false, "anchor function not found")
+		return
+	}
+	n := 0
+	ast.Inspect(fd.Body, func(nd ast.Node) bool {
+		cl, ok := nd.(*ast.CaseClause)
+		if !ok || cl.List == nil {
+			return true
+		}
+		captured := info.Implicits[cl]
+		if captured == nil {
+			return true
+		}
+		for _, st := range cl.Body {
+			ast.Inspect(st, func(m ast.Node) bool {
+				lit, ok := m.(*ast.FuncLit)
+				if !ok {
+					return true
+				}
+				n++
+				locals := map[types.Object]bool{}
+				ast.Inspect(lit.Body, func(k ast.Node) bool {
+					if vs, ok := k.(*ast.ValueSpec); ok {
+						for _, nm := range vs.Names {
+							locals[info.Defs[nm]] = true
+						}
+					}
+					return true
+				})
+				// uses of the captured value
+				okUses, copied := true, map[types.Object]bool{}
+				ast.Inspect(lit.Body, func(k ast.Node) bool {
+					call, isCall := k.(*ast.CallExpr)
+					if isCall && len(call.Args) == 1 && identOf(call.Args[0]) != nil && info.Uses[identOf(call.Args[0])] == captured {
+						if s, ok := unparen(call.Fun).(*ast.SelectorExpr); ok && s.Sel.Name == "Set" && identOf(s.X) != nil && locals[info.Uses[identOf(s.X)]] {
+							copied[info.Uses[identOf(s.X)]] = true
+							return false
+						}
+					}
+					if id, isId := k.(*ast.Ident); isId && info.Uses[id] == captured {
+						okUses = false
+					}
+					return true
+				})
+				okRet := false
+				ast.Inspect(lit.Body, func(k ast.Node) bool {
+					if r, ok := k.(*ast.ReturnStmt); ok && len(r.Results) == 1 {
+						if call, ok := unparen(r.Results[0]).(*ast.CallExpr); ok && len(call.Args) == 1 {
+							if u, ok := unparen(call.Args[0]).(*ast.UnaryExpr); ok && u.Op == token.AND && identOf(u.X) != nil && copied[info.Uses[identOf(u.X)]] {
+								okRet = true
+							}
+						}
+					}
+					return true
+				})
+				var ls []string
+				for _, e := range cl.List {
+					ls = append(ls, exprString(e))
+				}
+				c.Ob(rule, "fast.makeMathBigFun/"+strings.Join(ls, ","), lit, okUses && okRet, "the closure copies the compile-time value into a local (local.Set(captured)) and returns the address of that local; the captured value itself never escapes")
+				return false
+			})
+		}
+		return true
+	})
+	if n < 3 {
+		c.Ob(rule, "fast.makeMathBigFun/arms", fd, false, fmt.Sprintf("%d closures found, 3 expected: anchor missing", n))
+	}
+}
